@@ -218,8 +218,11 @@ def expandKind : Kind → PExp
   | .atom a => .atom a
   | .seq cs => seqL (cs.map .ref)
   | .sor cs => altL (cs.map .ref)
-  -- star_partial< R... >  ≡  star< partial< R... > >
-  | .starPartial cs => .star (partialE (cs.map .ref))
+  -- star< R >;  star_partial< R... > (prose): like star< R... >, but the final, failing iteration
+  -- keeps what its successful prefix consumed  ≡  seq< star< R... >, partial< R... > >
+  | .starPartial cs => match cs with
+    | [c] => .star (.ref c)
+    | _ => .seq (.star (seqL (cs.map .ref))) ((partialE (cs.map .ref)).opt)
   | .partialR cs => (partialE (cs.map .ref)).opt
   | .plus c => (PExp.ref c).plus
   | .atR c => .and_ (.ref c)
